@@ -814,12 +814,47 @@ func c19R4(p *Prog, r *Report) {
 	// idiom A: test-then-mark in a map over [first, first+n)
 	idiomA := false
 	whyA := ""
-	Instrs(as, func(in ssa.Instruction) {
+	// the marking loop may sit in the sampling function itself or in a helper of the source that
+	// is handed the set (made once in the sampling function, outside the loop over the producers)
+	type hostA struct {
+		fn   *ssa.Function
+		site ssa.Instruction // the call in the sampling function (nil for the function itself)
+		set  ssa.Value       // the parameter that stands for the shared set (nil: a MakeMap of fn)
+	}
+	hostsA := []hostA{{as, nil, nil}}
+	for _, h := range recvHelpers(as, 2) {
+		if h == as {
+			continue
+		}
+		sitesH, _ := p.staticCallSites(h)
+		for _, site := range sitesH {
+			cc := CallOf(site)
+			if site.Parent() != as || len(cc.Args) != len(h.Params) {
+				continue
+			}
+			for i, a := range cc.Args {
+				if mk, isMk := a.(*ssa.MakeMap); isMk && !InLoopWith(mk, site) {
+					hostsA = append(hostsA, hostA{h, site, h.Params[i]})
+				}
+			}
+		}
+	}
+	for _, hA := range hostsA {
+	host := hA.fn
+	pc := pc
+	if host != as {
+		pc = NewPolyCtx(host)
+	}
+	Instrs(host, func(in ssa.Instruction) {
 		mu, ok := in.(*ssa.MapUpdate)
 		if !ok {
 			return
 		}
-		if _, isAlloc := mu.Map.(*ssa.MakeMap); !isAlloc {
+		if hA.set != nil {
+			if mu.Map != hA.set {
+				return
+			}
+		} else if _, isAlloc := mu.Map.(*ssa.MakeMap); !isAlloc {
 			return
 		}
 		// a set: map[int]bool marked true and tested by value, or any map tested by presence (comma-ok)
@@ -879,7 +914,21 @@ func c19R4(p *Prog, r *Report) {
 				}
 				for _, r2 := range tests {
 					if iff, ok := r2.(*ssa.If); ok {
-						for _, rt := range ReachAvoiding(as, iff, func(x ssa.Instruction) bool { return x == ssa.Instruction(mu) }, isErrReturn) {
+						rejects := isErrReturn
+						if host != as {
+							// in a helper: an error is made that reaches an error return of the sampling function
+							rejects = func(x ssa.Instruction) bool {
+								c, isC := x.(*ssa.Call)
+								if !isC {
+									return false
+								}
+								if n := CalleeName(&c.Call); n != "fmt.Errorf" && n != "errors.New" {
+									return false
+								}
+								return errReachesErrorReturn(p, c, as, 0, map[ssa.Value]bool{})
+							}
+						}
+						for _, rt := range ReachAvoiding(host, iff, func(x ssa.Instruction) bool { return x == ssa.Instruction(mu) }, rejects) {
 							_ = rt
 							tested = true
 						}
@@ -887,13 +936,18 @@ func c19R4(p *Prog, r *Report) {
 				}
 			}
 		}
-		before := orderStore != nil && InstrReaches(mu, orderStore) && !InstrReaches(orderStore, mu)
+		var at ssa.Instruction = mu
+		if hA.site != nil {
+			at = hA.site
+		}
+		before := orderStore != nil && InstrReaches(at, orderStore) && !InstrReaches(orderStore, at)
 		if okSpan && okInit && tested && before {
 			idiomA = true
 		} else {
 			whyA = fmt.Sprintf("marking loop: covers [first, first+n)=%v/%v, test-then-reject=%v, before the group order is stored=%v", okInit, okSpan, tested, before)
 		}
 	})
+	}
 	// idiom B: sorted neighbours: reject when prev.first + prev.n > next.first
 	idiomB := false
 	whyB := ""
@@ -1552,4 +1606,70 @@ func st16(fa *ssa.FieldAddr) string {
 		return "?"
 	}
 	return typeName(fa.X.Type()) + "." + st.Field(fa.Field).Name()
+}
+
+// errReachesErrorReturn: the error value v (made in some function) can arrive at a return of top
+// as its error result: through phis, local variables (named results), returns of module helpers
+// to their static call sites, and conversions.
+func errReachesErrorReturn(p *Prog, v ssa.Value, top *ssa.Function, depth int, seen map[ssa.Value]bool) bool {
+	if v == nil || seen[v] || depth > 10 || v.Referrers() == nil {
+		return false
+	}
+	seen[v] = true
+	for _, ref := range *v.Referrers() {
+		switch x := ref.(type) {
+		case *ssa.Phi:
+			if errReachesErrorReturn(p, x, top, depth+1, seen) {
+				return true
+			}
+		case *ssa.MakeInterface:
+			if errReachesErrorReturn(p, x, top, depth+1, seen) {
+				return true
+			}
+		case *ssa.ChangeInterface:
+			if errReachesErrorReturn(p, x, top, depth+1, seen) {
+				return true
+			}
+		case *ssa.Store:
+			if al, ok := x.Addr.(*ssa.Alloc); ok && x.Val == v {
+				for _, r2 := range *al.Referrers() {
+					if ld, ok := r2.(*ssa.UnOp); ok && ld.Op == token.MUL {
+						if errReachesErrorReturn(p, ld, top, depth+1, seen) {
+							return true
+						}
+					}
+				}
+			}
+		case *ssa.Return:
+			f := x.Parent()
+			for i, res := range x.Results {
+				if res != v || !isErrorType(res.Type()) {
+					continue
+				}
+				if f == top {
+					return true
+				}
+				sites, _ := p.staticCallSites(f)
+				for _, site := range sites {
+					call, ok := site.(*ssa.Call)
+					if !ok {
+						continue
+					}
+					var rv ssa.Value = call
+					if len(x.Results) > 1 {
+						rv = nil
+						for _, r3 := range *call.Referrers() {
+							if e, ok := r3.(*ssa.Extract); ok && e.Index == i {
+								rv = e
+							}
+						}
+					}
+					if rv != nil && errReachesErrorReturn(p, rv, top, depth+1, seen) {
+						return true
+					}
+				}
+			}
+		}
+	}
+	return false
 }
